@@ -43,6 +43,15 @@ CHECKS = {
          "sparse column- and row-major storage; oracle in long double: normal-equation backward error, dense = sparse when cond <= 1e8, "
          "analytic d|D dx|/dlambda cross-checked by complex step, lambda = 1/Delta, descent, colwise_norm = definition.",
     design="4/C10", technique="explicit-state enumeration of a finite input product space against a long-double reference"),
+ "C12": dict(
+    text="Explicit-state breadth-first search over the real Spline<K,G> (13 (K,G) configurations, K in {1,2,3,5}): operations concat_local / "
+         "concat_global with every atom of a 4-atom menu and crop(ta,tb,localize) with ta,tb from a state-dependent menu (below range, 0, every "
+         "knot, knot +- 1e-9, every midpoint, t_max, above range), depth 2 full + 3 reduced menu (quick) / 3 + 4 (thorough), <= 8 segments, states "
+         "merged by the exact bytes of the six private members. Reference model: list of pieces (atom, long-double prefix, start, duration) "
+         "updated by the documented semantics of each operation; every state is evaluated at out-of-range times, knots +- {0,1e-9} and segment "
+         "thirds for value / velocity / acceleration, t_max, size(), start(), end(), arclength (exact integration of |quadratic| in long "
+         "double); ConstantVelocity = ga*expm(t v) for every degree and FixedCubic end conditions are enumerated separately.",
+    design="4/C12", technique="explicit-state BFS over operation histories of the real object against a reference model"),
  "C15": dict(
     text="Explicit-state breadth-first search over ALL programs up to depth 4 (quick; 5 thorough for SO2/SO3/SE3) over a ~30-operation "
          "alphabet (compose, inverse, *=, +=, rplus, exp, same-scalar cast, lift/project) on a register file of two elements and two tangents "
